@@ -18,7 +18,37 @@ from collections import defaultdict
 import operator
 from fractions import Fraction
 
+import vlib
 from vlib import cz, cnat, cbool, clist, copt, cpair
+
+GEN = os.path.join(vlib.COQ, "Gen", "C11_gen.v")
+
+
+def regen(repo=None):
+    """Tie (T): regenerate coq/Gen/C11_gen.v from the working tree's deap/gp.py.
+    Returns (ok, message, status) -- status: regenerated definition -> None (translated) | Refuse (placeholder = hand
+    model); ok is False when nothing could be translated."""
+    import c11_py2coq
+    repo = repo or vlib.REPO
+    try:
+        txt, status = c11_py2coq.translate_repo(repo)
+    except Exception as e:  # noqa  (a translator crash is a refusal of everything: fail closed)
+        r = c11_py2coq.Refuse("Module", "translator error %s: %s" % (type(e).__name__, e))
+        txt, status = c11_py2coq.translate_source("\x00")      # does not parse: all placeholders
+        status = {k: r for k in status}
+    with vlib.BuildLock():
+        os.makedirs(os.path.dirname(GEN), exist_ok=True)
+        old = open(GEN).read() if os.path.exists(GEN) else None
+        if old != txt:
+            with open(GEN, "w") as f:
+                f.write(txt)
+    done = [k for k, v in status.items() if v is None]
+    refused = ["%s (%s)" % (k, v) for k, v in status.items() if v is not None]
+    msg = "regenerated: %s" % (", ".join(done) or "nothing")
+    if refused:
+        msg += "; translator refused: " + "; ".join(refused)
+    return bool(done), msg, status
+
 
 # --------------------------------------------------------------------------- types used in typed sets
 class TA(object):
@@ -593,6 +623,35 @@ def main(run):
                         "strongly typed sets whose root type is `object` are excluded (DESIGN Appendix B 7)",
                         "primitives have arity >= 1, 0 <= min <= max"]
     run.build_props()
+    # ---- tie (T): regenerate Gen/C11_gen.v from the working tree, re-prove `regenerated = model` and the theorems
+    gen_check = "check"
+    ok, msg, status = regen()
+    refused = {k: v for k, v in status.items() if v is not None}
+    run.extra_cov["regenerated_functions"] = [k for k, v in status.items() if v is None]
+    run.extra_cov["translator_refused"] = {k: str(v) for k, v in refused.items()}
+    for k, v in refused.items():
+        run.notes.append("tie: correspondence-only (translator refused %s at line %s in %s: %s)" % (v.node, v.line, k, v.why))
+    if ok:
+        gen_ok = run.build_props(props="Props/C11_gen.v")
+        if gen_ok:
+            gen_check = "check_both"
+            run.notes.append("tie: regenerated (%s)" % ", ".join(run.extra_cov["regenerated_functions"]))
+            run.extra_cov["tie"] = ("translation (regenerated definitions proved equal to the hand model: %s) + correspondence%s"
+                                    % (", ".join(run.extra_cov["regenerated_functions"]),
+                                       "; correspondence-only for " + ", ".join(sorted(refused)) if refused else ""))
+            run.trusted.append("translator harness/c11_py2coq.py and its signature table (source text of deap/gp.py -> "
+                               "coq/Gen/C11_gen.v) with the statement vocabulary coq/Model/C11_GenRt.v; the regenerated "
+                               "definitions are proved equal to the hand model (Proofs/C11_gen_equiv.v) and evaluated against "
+                               "the implementation on every run")
+        else:
+            run.extra_cov["tie"] = "translator succeeded but the regenerated definitions are no longer (provably) the model"
+            try:        # keep the offending text for the replay
+                with open(os.path.join(run.rundir, "C11_gen.v.broken"), "w") as f:
+                    f.write(open(GEN).read())
+            except OSError:
+                pass
+    else:
+        run.extra_cov["tie"] = "correspondence-only (%s)" % msg
 
     groups = {}          # pset.k -> (PS, terms, cases)
     psdesc = {}          # pset name -> description (cases only carry the name, to keep memory small)
@@ -1264,7 +1323,43 @@ def main(run):
         pre += defs
         terms += ts
         cases += cs
-    run.correspond("all", "C11", terms, cases, preamble=pre, shard=300)
+    # the model and (when they check) the regenerated definitions are evaluated on every case
+    reqs = ["From DV Require Import Gen.C11_gen."] if gen_check != "check" else []
+    failing = run.correspond("all", "C11", terms, cases, preamble=pre, shard=300, check=gen_check, requires=reqs)
+    if gen_check == "check_both" and failing:
+        # which of the two disagrees with the implementation?
+        traces = run.traces
+        try:
+            sub = failing[:200]
+            bad_model = run.correspond("diagnosis_model", "C11", [terms[i] for i in sub], [cases[i] for i in sub],
+                                       preamble=pre, check="check")
+            bad_gen = run.correspond("diagnosis_regenerated", "C11", [terms[i] for i in sub], [cases[i] for i in sub],
+                                     preamble=pre, check="check_gen", requires=reqs)
+            run.notes.append("diagnosis: of %d disagreeing cases the hand model disagrees on %d, the regenerated definitions on %d"
+                             % (len(sub), len(bad_model), len(bad_gen)))
+        except Exception as e:  # noqa
+            run.notes.append("diagnosis step failed: %r" % (e,))
+        run.traces = traces
+        for g in ("diagnosis_model", "diagnosis_regenerated"):
+            run.corr_groups.pop(g, None)
+        run.disagreements = [d for d in run.disagreements if d.get("group") not in ("diagnosis_model", "diagnosis_regenerated")]
+    elif gen_check == "check" and ok:
+        # translated but not provably the model: do the regenerated definitions at least agree with the implementation?
+        traces = run.traces
+        try:
+            rc, out = vlib.coqc_file(GEN, cwd=vlib.COQ)
+            if rc == 0:
+                bad_gen = run.correspond("diagnosis_regenerated", "C11", terms, cases, preamble=pre, shard=300,
+                                         check="check_gen", requires=["From DV Require Import Gen.C11_gen."])
+                g = run.corr_groups.pop("diagnosis_regenerated", {})
+                run.disagreements = [d for d in run.disagreements if d.get("group") != "diagnosis_regenerated"]
+                run.notes.append("diagnosis: the regenerated definitions (not provably equal to the model) disagree with the "
+                                 "implementation on %d of %d cases (errors: %s)" % (len(bad_gen), len(terms), g.get("errors")))
+            else:
+                run.notes.append("diagnosis: the regenerated definitions do not compile: " + out[-400:])
+        except Exception as e:  # noqa
+            run.notes.append("diagnosis step failed: %r" % (e,))
+        run.traces = traces
     for d in run.disagreements:
         c = d.get("case")
         if isinstance(c, dict) and isinstance(c.get("pset"), str):
